@@ -63,6 +63,7 @@ fn cond(e: &Expr) -> &'static str {
     match nows(e).as_str() {
         "started" => "CStarted",
         "self.vring_needs_init(vring)" => "CNeedsInit",
+        "self.acked_features&VhostUserVirtioFeatures::PROTOCOL_FEATURES.bits()==0" => "CNoProtocolFeatures",
         other => die(&format!("condition {}", other)),
     }
 }
@@ -114,6 +115,13 @@ fn stmt(s: &Stmt, is_tail: bool) -> Option<String> {
         "self.initialize_vring(vring,index)?;" => "OInitRing".into(),
         "letstarted=vring.get_ref().get_queue().ready();" => "OLetStarted".into(),
         "letnext_avail=vring.queue_next_avail();" => "OLetNextAvail".into(),
+        "if(features&!self.backend.features())!=0{returnErr(VhostUserError::InvalidParam);}" => "OCheckOffered".into(),
+        "self.acked_features=features;" => "OSetAckedFeatures".into(),
+        "self.features_acked=true;" => "OMarkFeaturesAcked".into(),
+        "letevent_idx:bool=(self.acked_features&(1<<VIRTIO_RING_F_EVENT_IDX))!=0;" => "OLetEventIdx".into(),
+        "forvringinself.vrings.iter_mut(){vring.set_queue_event_idx(event_idx);}" => "OSetEventIdxAll".into(),
+        "self.backend.set_event_idx(event_idx);" => "OBackendEventIdx".into(),
+        "self.backend.acked_features(self.acked_features);" => "OBackendAckedFeatures".into(),
         "self.features_acked=false;" => "OForgetFeatures".into(),
         "self.acked_features=0;" => "OClearAckedFeatures".into(),
         "self.backend.reset_device();" => "OBackendReset".into(),
@@ -207,7 +215,7 @@ pub fn emit(repo: &str) -> String {
     let f = find_fn(&file, "update_vring_registration");
     let i = find_reg_if(&f.block).unwrap_or_else(|| die("update_vring_registration: no register / unregister decision"));
     s.push_str(&format!("Definition ctl_reg_wanted (ready enabled : bool) : bool := {}.\n\n", bexp(&i.cond)));
-    for name in ["initialize_vring", "set_vring_enable", "get_vring_base", "set_vring_kick", "set_vring_call", "set_vring_err", "reset_device"] {
+    for name in ["initialize_vring", "set_vring_enable", "get_vring_base", "set_vring_kick", "set_vring_call", "set_vring_err", "reset_device", "set_features"] {
         s.push_str(&program(&file, name));
     }
     s
